@@ -451,6 +451,40 @@ pub fn extremes(prop: &str, seed: u64, rep: &mut Report) {
     }
 }
 
+/// C17 at the carries of the size fields: chunks that produce 0x10000 bytes but declare 0x20000 (and vice
+/// versa), that declare 0x10000 / 0x1FFFF more or less than they produce, each followed by the end byte.
+pub fn framing_extremes(prop: &str, rep: &mut Report) {
+    let p = Props { lc: 3, lp: 0, pb: 2 };
+    let prog_for = |n: usize| -> Vec<Sym> {
+        let mut v = vec![Sym::Lit { b: 0x33 }];
+        let mut left = n - 1;
+        while left > 0 {
+            let k = if left >= 273 + 2 { 273 } else if left >= 2 { left } else { 0 };
+            if k == 0 {
+                v.push(Sym::Lit { b: 0x33 });
+                left -= 1;
+            } else {
+                v.push(Sym::Rep { r: 0, n: k as u32 });
+                left -= k;
+            }
+        }
+        v
+    };
+    for (produced, declared) in [(0x10000usize, 0x20000usize), (0x20000, 0x10000), (0x20000, 0x30000), (0x10000, 0x10001), (0x10001, 0x10000), (0x1FFFF, 0x20000), (0x20000, 0x1FFFF), (0x200000, 0x100000), (0x100000, 0x200000)] {
+        let mut st = L2State::default();
+        let ch = st.push(&Chunk::Lzma { class: 3, props: Some(p), prog: prog_for(produced) });
+        let payload = ch.bytes[ch.payload_off..].to_vec();
+        let mut b = lzma2_chunk_header(3, declared, payload.len(), Some(p));
+        b.extend_from_slice(&payload);
+        b.push(0);
+        for api_name in ["lzma2", "xz"] {
+            let c = L2Case { data_hex: hex(&b), api: api_name.into(), spec_res: None, spec_why: None, spec_out: None, origin: format!("framing-extreme:produces{:#x}-declares{:#x}", produced, declared) };
+            check_case(&c, prop, rep);
+        }
+    }
+    rep.sample(json!({"origin": "framing_extremes", "what": "chunks declaring 0x10000 / 0x1FFFF / 0x100000 more or less than they produce (carries of the 16+5-bit size field)"}));
+}
+
 /// Random program for one chunk given the carried state (history length, st, rep).
 fn chunk_program(rng: &mut StdRng, st: &L2State, class: u8, nsyms: usize, hist_len: usize, _p: Props) -> Vec<Sym> {
     // simulate validity on a light-weight copy: only lengths / rep distances matter
